@@ -182,3 +182,33 @@ Theorem C12_e2e_filter_map :
     v = fmap_opt f (values (g_o g')).
 Proof. exact e2e_filter_map. Qed.
 Print Assumptions C12_e2e_filter_map.
+
+(* ---- the same pipeline when the polls of the adapter's subscriber race the vector (the vector
+   publishes or is dropped between the receive attempts of one poll: OVecDrain.v) ---- *)
+From EB Require Import OVecStepwise OVecDrain EndToEndDrain.
+
+Theorem C12_e2e_racing_invariant :
+  forall (A B St : Type) (on_diff : St -> diff A -> outcome (St * list (diff B)))
+         (R : St -> list A -> list B -> Prop) (init : list A -> St * list B),
+    step_ok on_diff R -> (forall l, R (fst (init l)) l (snd (init l))) ->
+    forall (capacity : nat) (cs : list (cop A)) (k : nat),
+      exists g a, e2e_crun on_diff init k (ginit capacity) None cs = Some (g, a) /\
+        step_inv g /\
+        match a with
+        | Some (st, v) => exists gh, nth_error (g_gh g) k = Some gh /\ R st (gh_replica gh) v
+        | None => length (g_gh g) <= k
+        end.
+Proof. intros A B St on_diff R init Hs Hi. exact (e2e_c_invariant on_diff R init Hs Hi). Qed.
+Print Assumptions C12_e2e_racing_invariant.
+
+Theorem C12_e2e_racing_view_at_pending :
+  forall (A B St : Type) (on_diff : St -> diff A -> outcome (St * list (diff B)))
+         (R : St -> list A -> list B -> Prop) (init : list A -> St * list B),
+    step_ok on_diff R -> (forall l, R (fst (init l)) l (snd (init l))) ->
+    forall (capacity : nat) (cs : list (cop A)) (k : nat) g st v inj g' u,
+      e2e_crun on_diff init k (ginit capacity) None cs = Some (g, Some (st, v)) ->
+      forallb (env_ops k) inj = true ->
+      c_gpoll g k inj = Ok (g', Pending, u) ->
+      R st (values (g_o g')) v.
+Proof. intros A B St on_diff R init Hs Hi. exact (e2e_c_view_at_pending on_diff R init Hs Hi). Qed.
+Print Assumptions C12_e2e_racing_view_at_pending.
